@@ -601,6 +601,28 @@ def oracle_C06_fields(scn, tr):
     return fails
 
 
+def oracle_C12_once(scn, tr):
+    """family overlap, run drained: whatever the readiness schedule, every variable read callback is invoked
+    exactly once per variable per response (READ line or READ event) of its command"""
+    if scn.meta.get('family') != 'overlap' or 'overlap' not in scn.meta or not fully_drained(scn, tr):
+        return []
+    mode, evci = scn.meta['overlap']
+    fails = []
+    cmds = scn.cmds()
+    if any(l.startswith('= t') and l.split()[2] != '0' for l in tr):
+        return []
+    for c in cmds:
+        responses = (2 if mode == 0 else 1) if c.name == '+X' else 0
+        responses += 1 if c.ci == evci else 0
+        for vi, v in enumerate(c.vars):
+            if not v.hread:
+                continue
+            n = sum(1 for l in tr if l.startswith('V r %d %d ' % (c.ci, vi)))
+            if n != responses:
+                fails.append('read callback of variable %d of %s ran %d times for %d responses (the sequence of handler invocations must not depend on output refusals)' % (vi, c.name, n, responses))
+    return fails
+
+
 def oracle_C06_needall(scn, tr):
     """family needall: only the number of fields decides: more fields than variables, no field at all, or
     fewer than all with need_all_vars -> ERROR and no write handler call; otherwise OK and (if there is a write
@@ -666,6 +688,9 @@ def oracle_C06(scn, tr):
             if ln.result != 'ERROR':
                 fails.append('line %r: over-long arguments answered %s' % (ln.text, ln.result))
             continue
+        if not hw and c.w and not c.only_test and not any(v.access in (RW, WO) for v in c.vars) \
+                and not (args[:1] == b'?' and (c.t or c.vars) and not c.implicit):
+            fails.append('line %r: %d argument bytes fit the %d-byte buffer and command %s has a write handler, but it was not invoked (answer %s)' % (ln.text, len(args), asz, c.name, ln.result))
         for x in hw:
             data, ln_, an = unhex(x[3]), int(x[4]), int(x[5])
             if ln_ != len(args) or data[:ln_] != args:
@@ -1039,6 +1064,10 @@ def oracle_C13(scn, tr):
             elif st == -5:
                 if depth_hi < cap:
                     fails.append('trigger refused with BUFFER_FULL although at most %d of %d slots can be occupied' % (depth_hi, cap))
+            elif st not in (-2, -3):
+                # the only outcomes of a trigger are OK, ERROR_BUFFER_FULL and the two mutex errors: whether the
+                # command has anything to show is found out when the event is processed, not at the trigger
+                fails.append('trigger returned %d (a trigger is accepted iff the queue has room: expected OK or ERROR_BUFFER_FULL)' % st)
             elif st == -2:
                 # ERROR_MUTEX_UNLOCK: the body ran before the unlock failed, so the event may have been queued
                 # (Lemmas_C13: C13_cex_unlock); the upper bound grows, the lower bound does not
